@@ -50,6 +50,7 @@ CLASSES = ["unknown-module", "nonpositive-weight", "nonpositive-area", "soft-wit
 # assertion message -> admissible model reasons
 MSG2REASON = [
     (r"root node is not a dictionary", ["R_root_not_map"]),
+    (r"The input must be a YAML tree", ["R_source"]),
     (r"^Unknown key", ["R_root_key"]),
     (r"node for modules is not a dictionary", ["R_modules_not_map"]),
     (r"Invalid module name|Invalid name for module|Incorrect module name", ["R_module_name"]),
@@ -350,7 +351,8 @@ def text_of(doc, spelled=None):
 def run_impl(case):
     """text = write_yaml(document) (real ruamel dump) or the case's own spelling; n1 = Netlist(text);
     text1 = n1.write_yaml(); n2 = Netlist(text1); text2 = n2.write_yaml().
-    case["via"]: "tree" = Netlist(document), "file" = Netlist(name of a file holding the text).
+    case["via"]: "tree" = Netlist(document), "file" = Netlist(name of a file holding the text),
+    "stream" = Netlist(open text stream holding the text).
     case["history"]: documents loaded (and written) in the same process before, each from an undefined epsilon;
     case["twice"]: the very same source object is loaded twice, the second load is observed."""
     import os
@@ -384,6 +386,10 @@ def run_impl(case):
                 how = how + "-file"
             else:
                 src = text
+    if case.get("via") == "stream" and text is not None:
+        import io
+        src = io.StringIO(text)
+        how = how + "-stream"
     try:
         return _observe(case, src, text, how, eps)
     finally:
@@ -394,7 +400,7 @@ def run_impl(case):
 
 def _observe(case, src, text, how, eps):
     from ruamel.yaml import YAML
-    if case.get("twice"):
+    if case.get("twice") and not how.endswith("-stream"):      # (a stream can be read once)
         load(src, eps)
     obs = {"text": text, "via": how}
     n1, v = load(src, eps)
